@@ -502,6 +502,9 @@ def run(pid, tier, replay=None):
             # the release profile (no debug assertions, optimised): a sample of the matrix and all the families
             rel = vlib.build_harness("release")
             matrix_runs.append(("release", rel, random.Random(vlib.seed() + 1).sample(built, min(40000, len(built))), None))
+        # the second value representation: an unchecked unwrap is a panic in the enum build and a wild pointer here
+        nb = vlib.build_harness(nan_boxing=True)
+        matrix_runs.append(("nan_boxing", nb, built if tier == "thorough" else random.Random(vlib.seed() + 2).sample(built, min(40000, len(built))), None))
     for label, binary, built_here, extra in matrix_runs:
         results, crashes = run_matrix(v, binary, built_here, label, extra=extra)
         for c in built_here:
